@@ -25,6 +25,7 @@ import "golang.org/x/telemetry/internal/telemetry"
 //@ ghost reportExists bool
 //@ ghost lockHeld bool
 //@ ghost markerAbsent bool
+//@ ghost private bool
 
 // An uploader's configuration and logger, and the maps of a report entry, are
 // set when the object is built and never replaced.
@@ -35,6 +36,10 @@ import "golang.org/x/telemetry/internal/telemetry"
 func specUploader(u *uploader) bool {
 	return u != nil && u.logger != nil && u.config != nil
 }
+
+// uploaderOK: specUploader plus the invariant of the parse cache: every cached
+// file is a successfully parsed one.
+//@ predicate uploaderOK(u *uploader): specUploader(u) && (forall k string :: in(k, u.cache.m) ==> u.cache.m[k] != nil && u.cache.m[k].Meta != nil && u.cache.m[k].Count != nil)
 
 // specPrograms: every program entry of a report under construction is usable.
 func specProgram(p *telemetry.ProgramReport) bool {
@@ -50,7 +55,7 @@ func specProgram(p *telemetry.ProgramReport) bool {
 //@   modifies heap
 
 //@ contract newUploader
-//@   ensures result1 == nil ==> specUploader(result0) && fresh(result0)
+//@   ensures result1 == nil ==> uploaderOK(result0) && fresh(result0)
 //@   ensures result1 != nil ==> result0 == nil
 //@   modifies $fsops
 
@@ -69,22 +74,24 @@ func specProgram(p *telemetry.ProgramReport) bool {
 // Run: with mode off no file is created, changed or removed; requests are made
 // only in mode on (see uploadReportContents).
 //@ contract (*uploader).Run
-//@   requires specUploader(u)
+//@   requires uploaderOK(u)
+//@   ensures uploaderOK(u)
 //@   ensures $mode == "off" ==> $fsops == old($fsops)
-//@   loop 1: invariant specUploader(u) && (len(ready) > 0 ==> $mode == "on") && ($mode == "off" ==> $fsops == old($fsops))
+//@   loop 1: invariant uploaderOK(u) && (len(ready) > 0 ==> $mode == "on") && ($mode == "off" ==> $fsops == old($fsops))
 //@   modifies u.cache.m, entries(u.cache.m), maps(string, int64), $fsops, $reportExists, $lockHeld, $markerAbsent
 
 // findWork only reads: nothing is created, changed or removed (it may create
 // the upload directory itself). A report name is put on the ready list only in
 // mode on, and only if it does not start with "local." and ends in ".json".
 //@ contract (*uploader).findWork
-//@   requires specUploader(u)
+//@   requires uploaderOK(u)
+//@   ensures uploaderOK(u)
 //@   ensures $fsops == old($fsops)
 //@   ensures len(result.readyfiles) > 0 ==> $mode == "on"
 //@   ensures u.cache.m == old(u.cache.m) || fresh(u.cache.m)
 //@   loop 1: invariant u.cache.m == old(u.cache.m) || fresh(u.cache.m)
-//@   loop 1: invariant specUploader(u) && $fsops == old($fsops) && (len(ans.readyfiles) > 0 ==> $mode == "on") && mode == $mode && asof == $asof
-//@   loop 2: invariant specUploader(u) && $fsops == old($fsops) && (len(ans.readyfiles) > 0 ==> $mode == "on") && ans.uploaded != nil
+//@   loop 1: invariant uploaderOK(u) && $fsops == old($fsops) && (len(ans.readyfiles) > 0 ==> $mode == "on") && mode == $mode && asof == $asof
+//@   loop 2: invariant uploaderOK(u) && $fsops == old($fsops) && (len(ans.readyfiles) > 0 ==> $mode == "on") && ans.uploaded != nil
 //@   at call append#2: assert mode == "on" && !strings.HasPrefix(fi.Name(), "local.") && strings.HasSuffix(fi.Name(), ".json")
 //@   at call append#2: assert !asof.IsZero() && !reportDate.IsZero() ==> asof.Before(reportDate)
 //@   at call append#3: assert mode == "on" && !strings.HasPrefix(fi.Name(), "local.") && strings.HasSuffix(fi.Name(), ".json")
@@ -92,15 +99,16 @@ func specProgram(p *telemetry.ProgramReport) bool {
 
 // reports: with mode off nothing happens at all.
 //@ contract (*uploader).reports
-//@   requires specUploader(u) && todo != nil
+//@   requires uploaderOK(u) && todo != nil
+//@   ensures uploaderOK(u)
 //@   requires len(todo.readyfiles) > 0 ==> $mode == "on"
 //@   ensures $mode == "off" ==> $fsops == old($fsops) && len(result0) == 0
 //@   ensures len(result0) > 0 ==> $mode == "on"
 //@   ensures u.cache.m == old(u.cache.m) || fresh(u.cache.m)
 //@   loop 1: invariant u.cache.m == old(u.cache.m) || fresh(u.cache.m)
 //@   loop 2: invariant u.cache.m == old(u.cache.m) || fresh(u.cache.m)
-//@   loop 1: invariant specUploader(u) && todo != nil && $fsops == old($fsops) && (len(todo.readyfiles) > 0 ==> $mode == "on") && $mode != "off" && countFiles != nil && earliest != nil
-//@   loop 2: invariant specUploader(u) && todo != nil && (len(todo.readyfiles) > 0 ==> $mode == "on") && $mode != "off"
+//@   loop 1: invariant uploaderOK(u) && todo != nil && $fsops == old($fsops) && (len(todo.readyfiles) > 0 ==> $mode == "on") && $mode != "off" && countFiles != nil && earliest != nil
+//@   loop 2: invariant uploaderOK(u) && todo != nil && (len(todo.readyfiles) > 0 ==> $mode == "on") && $mode != "off"
 //@   modifies todo.readyfiles, u.cache.m, entries(u.cache.m), maps(string, int64), $fsops, $reportExists
 
 //@ contract latestReport
@@ -114,30 +122,33 @@ func specProgram(p *telemetry.ProgramReport) bool {
 //@   modifies nothing
 
 //@ contract (*uploader).deleteFiles
-//@   requires specUploader(u)
+//@   requires uploaderOK(u)
 //@   requires $mode != "off"
 //@   modifies $fsops
 
 //@ contract (*uploader).tooOld
-//@   requires specUploader(u)
+//@   requires uploaderOK(u)
 //@   ensures $fsops == old($fsops)
 //@   modifies nothing
 
 //@ contract (*uploader).counterDateSpan
-//@   requires specUploader(u)
+//@   requires uploaderOK(u)
+//@   ensures uploaderOK(u)
 //@   ensures $fsops == old($fsops)
 //@   ensures u.cache.m == old(u.cache.m) || fresh(u.cache.m)
 //@   modifies u.cache.m, entries(u.cache.m)
 
 //@ contract (*uploader).parseCountFile
-//@   requires u != nil
+//@   requires uploaderOK(u)
+//@   ensures uploaderOK(u)
+//@   at call Parse#1: assume $private
 //@   ensures result1 == nil ==> result0 != nil && result0.Meta != nil && result0.Count != nil
 //@   ensures $fsops == old($fsops)
 //@   ensures u.cache.m == old(u.cache.m) || fresh(u.cache.m)
 //@   modifies u.cache.m, entries(u.cache.m)
 
 //@ contract (*uploader).uploadReportDate
-//@   requires specUploader(u)
+//@   requires uploaderOK(u)
 //@   ensures $fsops == old($fsops)
 //@   modifies nothing
 
@@ -159,7 +170,8 @@ func specProgram(p *telemetry.ProgramReport) bool {
 // createReport: count files are deleted only once a report file for the week
 // is known to exist, and only the files handed in are deleted.
 //@ contract (*uploader).createReport
-//@   requires specUploader(u)
+//@   requires uploaderOK(u)
+//@   ensures uploaderOK(u)
 //@   requires $mode != "off"
 //@   ensures result0 != "" ==> $mode == "on"
 //@   ensures u.cache.m == old(u.cache.m) || fresh(u.cache.m)
@@ -175,26 +187,26 @@ func specProgram(p *telemetry.ProgramReport) bool {
 //@   at call deleteFiles#2: assert $reportExists && issub(arg1, countFiles, 0, len(countFiles))
 //@   at call deleteFiles#3: assert $reportExists && issub(arg1, countFiles, 0, len(countFiles))
 //@   at call exclusiveWrite#1: assert uploadOK
-//@   loop 1: invariant specUploader(u) && report != nil && !$reportExists && $fsops == old($fsops)
+//@   loop 1: invariant uploaderOK(u) && report != nil && !$reportExists && $fsops == old($fsops)
 //@   loop 1: invariant forall i int :: 0 <= i && i < len(report.Programs) ==> specProgram(report.Programs[i])
-//@   loop 2: invariant specUploader(u) && report != nil && prog != nil && prog.Counters != nil && prog.Stacks != nil && !$reportExists && x != nil
+//@   loop 2: invariant uploaderOK(u) && report != nil && prog != nil && prog.Counters != nil && prog.Stacks != nil && !$reportExists && x != nil
 //@   loop 2: invariant forall i int :: 0 <= i && i < len(report.Programs) ==> specProgram(report.Programs[i])
-//@   loop 3: invariant specUploader(u) && report != nil && upload != nil && cfg != nil && !$reportExists
+//@   loop 3: invariant uploaderOK(u) && report != nil && upload != nil && cfg != nil && !$reportExists
 //@   loop 3: invariant forall i int :: 0 <= i && i < len(report.Programs) ==> report.Programs[i] != nil
-//@   loop 4: invariant specUploader(u) && x != nil && x.Counters != nil && x.Stacks != nil && p != nil && cfg != nil && !$reportExists
-//@   loop 5: invariant specUploader(u) && x != nil && x.Counters != nil && x.Stacks != nil && p != nil && cfg != nil && !$reportExists
+//@   loop 4: invariant uploaderOK(u) && x != nil && x.Counters != nil && x.Stacks != nil && p != nil && cfg != nil && !$reportExists
+//@   loop 5: invariant uploaderOK(u) && x != nil && x.Counters != nil && x.Stacks != nil && p != nil && cfg != nil && !$reportExists
 //@   modifies u.cache.m, entries(u.cache.m), maps(string, int64), $fsops, $reportExists
 
 // uploadReport: a report dated in the future is not sent.
 //@ contract (*uploader).uploadReport
-//@   requires specUploader(u)
+//@   requires uploaderOK(u)
 //@   requires $mode == "on"
 //@   modifies $fsops, $lockHeld, $markerAbsent
 
 // uploadReportContents: lock before POST, marker re-checked under the lock,
 // disposal of the report exactly as the status dictates.
 //@ contract (*uploader).uploadReportContents
-//@   requires specUploader(u)
+//@   requires uploaderOK(u)
 //@   requires $mode == "on"
 //@   at call OpenFile#1: ghost $lockHeld = false
 //@   at call OpenFile#1: after ghost $lockHeld = result1 == nil
